@@ -10,7 +10,7 @@ git -C /repo worktree remove --force $wt 2>/dev/null; rm -rf $wt
 git -C /repo worktree add -q --detach $wt HEAD || exit 2
 out=/tmp/vseed-$name.log; : > $out
 ok=1
-( cd $wt && git apply $src/patch.diff ) >>$out 2>&1 || { echo "$name: patch does not apply"; ok=0; }
+( cd $wt && { [ -f $src/patch.rebased.diff ] && git apply $src/patch.rebased.diff || git apply $src/patch.diff; } ) >>$out 2>&1 || { echo "$name: patch does not apply"; ok=0; }
 if [ $ok = 1 ]; then
   ( cd $wt && go build ./... ) >>$out 2>&1 || { echo "$name: build fails"; ok=0; }
 fi
@@ -47,12 +47,13 @@ with=; without=
 if [ $ok = 1 ]; then
   cp $src/demo_test.go $wt/internal/server/seed_demo_test.go
   wf=0; for i in 1 2 3; do ( cd $wt && go test -vet=off -count=1 -run 'TestSeedDemo' ./internal/server/ ) >>$out 2>&1 || wf=$((wf+1)); done
-  ( cd $wt && git apply -R $src/patch.diff ) >>$out 2>&1
+  ( cd $wt && { [ -f $src/patch.rebased.diff ] && git apply -R $src/patch.rebased.diff || git apply -R $src/patch.diff; } ) >>$out 2>&1
   wp=0; for i in 1 2 3; do ( cd $wt && go test -vet=off -count=1 -run 'TestSeedDemo' ./internal/server/ ) >>$out 2>&1 && wp=$((wp+1)); done
   echo "$name: baseline_passes=$base_pass demo_fails_with_patch=$wf/3 demo_passes_without=$wp/3"
   if [ $wf = 3 ] && [ $wp = 3 ]; then
     mkdir -p /verif/seeded/$name
     cp $src/patch.diff $src/demo_test.go /verif/seeded/$name/
+    [ -f $src/patch.rebased.diff ] && cp $src/patch.rebased.diff /verif/seeded/$name/
     python3 - "$src/meta.json" "/verif/seeded/$name/meta.json" "$base_pass" "$wf" "$wp" <<'PY'
 import json,sys
 m=json.load(open(sys.argv[1]))
